@@ -22,6 +22,9 @@ RLe(a, b) == FALSE
 RIsZero(a) == a = RZero
 RIsInt(a) == a[1][2] = 1 /\ a[2][2] = 1
 RIsReal(a) == a[2] = R!RZero
+RConjS(a) == <<a[1], R!RNeg(a[2])>>
+RRe(a) == <<a[1], R!RZero>>
+RIm(a) == <<a[2], R!RZero>>
 RSmall(a, M) == /\ Abs(a[1][1]) <= M /\ a[1][2] <= M /\ Abs(a[2][1]) <= M /\ a[2][2] <= M
 RECURSIVE RPowNat(_, _)
 RPowNat(a, n) == IF n = 0 THEN ROne ELSE RMul(a, RPowNat(a, n - 1))
